@@ -56,15 +56,21 @@ def actionJson (a : TableParse.Action) : Json :=
 /-- the expanded table read by the model of the table reader in exact mode (`C17_exact_actions_text`): the hypotheses
 `itemOK` / `inertItem` evaluated on the items, the action list composed from the items (`exactActs`) and the one the
 reader's model computes from the text itself -/
-def exactJson (flavor : Str) (items : List Item) : Json :=
+def exactJson (flavor : Str) (A : Answers) (o : Opts) (lines : List Str) (items : List Item) : Json :=
   let env : Cond.Env := ⟨flavor, [ExpandTable.sExactW]⟩
   let direct := match TableParse.tableActions TableParse.repaired none env (ExpandTable.expandedText items true) with
     | .ok acts => Json.arr (acts.map actionJson).toArray
     | .err _ => Json.str "error"
     | .fuel => Json.str "fuel"
+  let composed2 := match ExpandTable.expandParts A o lines with
+    | .ok p => Json.arr ((C11Spec.denoteTable env (C11Spec.tableAbs (ExpandTable.tableOf none p))).map actionJson).toArray
+    | .error _ => Json.null
   Json.mkObj [("itemOK", items.all (ExpandTable.itemOK none)), ("inert", items.all (ExpandTable.inertItem none)),
               ("flavorOK", C11Spec.flavorOK flavor),
               ("acts", Json.arr ((items.flatMap (ExpandTable.exactActs none)).map actionJson).toArray),
+              -- C17_exact_actions_blocks: non-setup lines grouped into lines and `if` chains (checked grouping)
+              ("blocksOK", ExpandTable.expandOK2 none A o lines), ("inert2", ExpandTable.expandInert2 none env A o lines),
+              ("composed2", composed2),
               ("direct", direct)]
 
 /-- `{"m":"c17","op":"expand","lines":[..],"pins":[[n,v]..],"toplevel":s|null,"force":b,"expandVersions":b,
@@ -126,7 +132,7 @@ def handle : Handler := fun j => do
                                              ("covered", D.covered o lines), ("noExactLine", noExactLine A o lines)]),
                         -- with "flavor": the expanded table read in exact mode (C17_exact_actions_text)
                         ("exact", match jstr j "flavor" with
-                          | .ok fl => exactJson fl items
+                          | .ok fl => exactJson fl A o lines items
                           | .error _ => Json.null)])
   | _ => throw s!"unknown op {op}"
 
